@@ -18,7 +18,7 @@ RULE = ('case = file-based generated pipeline (JSON/YAML, uses with and without 
         'content hashes of all regular files of the source tree are unchanged; the second migration changes no file of the target. non-trivial = >=1 migrated '
         'directory-type or empty result and >=1 task left uncomputed; distinct = hash(files, root, computed subset)')
 REQUIRED = ['migrations', 'migrated_results_loaded', 'uncomputed_tasks_checked', 'dry_runs_checked', 'second_migrations_checked', 'source_trees_checked',
-            'multi_config_roots', 'explicit_part_roots', 'directory_results_migrated', 'empty_results_migrated']
+            'multi_config_roots', 'explicit_part_roots', 'explicitly_named_configs', 'directory_results_migrated', 'empty_results_migrated']
 ASSUMPTIONS = ['the migration function takes no root namespace: roots without namespace only',
                'one config file is not mounted twice (name mode addresses results by config name, two mounts would share a location by design)',
                'newly created EMPTY directories in the source are ignored (inspecting a task creates its directory)']
@@ -38,6 +38,10 @@ def run_one(rng, res: CaseResult):
         new = old.rsplit('.', 1)[0] + '.v2.' + old.rsplit('.', 1)[1]
         _rename_file(spec, old, new)
         root['file'] = new
+    # the caller names the config explicitly (name-mode results are then stored under that name, not under the file stem)
+    if rng.random() < 0.3:
+        root['config_name'] = rng.choice(['kept_name', 'v1', root['file'].split('/')[-1].rsplit('.', 1)[0] + '_old'])
+        res.count('explicitly_named_configs')
     ref = Ref(spec, root)                       # parameter mode reference (values, keys)
     ref_name = Ref(spec, root, parameter_mode=False)
     if ref.error is not None or not ref.tasks:
